@@ -372,7 +372,27 @@ def build_batch_crate(crate_dir, target_dir, rustflags, toolchain=None, extra=()
             failures.setdefault(tname, []).append((sorted(set(files)), m["message"].get("rendered", "")[:1500]))
     if p.returncode != 0 and not failures and not ok:
         raise RuntimeError("batch build failed without diagnostics:\n" + p.stdout[-5000:])
+    # the shared target dir would otherwise accumulate every batch binary ever built (hard links in deps/, fingerprints)
+    _sweep_batch_artifacts(target_dir, crate_dir, keep=set(ok.values()))
     return ok, failures, p
+
+
+def _sweep_batch_artifacts(target_dir, crate_dir, keep=()):
+    import glob
+    names = [d for d in os.listdir(crate_dir) if os.path.isdir(os.path.join(crate_dir, d))]
+    for prof in ("debug", "release", os.path.join("x86_64-unknown-linux-gnu", "debug"), os.path.join("x86_64-unknown-linux-gnu", "release")):
+        base = os.path.join(target_dir, prof)
+        if not os.path.isdir(base):
+            continue
+        for n in names:
+            for f in glob.glob(os.path.join(base, "deps", n + "-*")) + glob.glob(os.path.join(base, n + ".d")):
+                if f not in keep:
+                    try:
+                        os.remove(f)
+                    except OSError:
+                        pass
+        for f in glob.glob(os.path.join(base, ".fingerprint", "vfbatch-*")) + glob.glob(os.path.join(base, "incremental", "*")):
+            shutil.rmtree(f, ignore_errors=True)
 
 
 # ------------------------------------------------------------------------------------------------
